@@ -718,6 +718,13 @@ static Plan generate(uint64_t seed, uint64_t run, const std::map<std::string, st
     p.ops.emplace_back(0, gen_dict_model_op(r));
     p.cfg["dictmodel"] = "1";
     p.set("mask", pick_mask(r, kPatSites14, 1));
+  } else if (p.property == "C14" && r.chance(1, 9)) {
+    // the same URL given once as a string and once as the dictionary of its components must be matched identically
+    Op op = gen_pattern_op(r, true);
+    if (((op.sub >> 2) & 3) == 1 && op.args.size() >= 18) op.args[10].reset();  // no base: the string must be absolute
+    p.ops.emplace_back(0, op);
+    p.cfg["dictpair"] = "1";
+    p.set("mask", pick_mask(r, kPatSites14, 1));
   } else if (p.property == "C14") {
     p.ops.emplace_back(0, gen_pattern_op(r, true));
     p.set("mask", pick_mask(r, kPatSites14, 1));
@@ -937,6 +944,50 @@ static Result execute(const Plan& p, Stats& st) {
               return res;
             }
           }
+        }
+      }
+    }
+    if (p.cfg.count("dictpair") && ops[0].args.size() >= 18 && ((ops[0].sub >> 2) & 3) == 1 && ops[0].args[9] && !ops[0].args[10]) {
+      auto u = ada::parse<ada::url_aggregator>(*ops[0].args[9]);
+      // Comparable only where both routes are defined alike: a special, non-file scheme (the dictionary route always
+      // canonicalises the hostname as a domain, the URL parser keeps an opaque host of a non-special URL as written) and a
+      // query / fragment that does not itself begin with its delimiter (the dictionary route strips one '?' / '#').
+      const bool comparable = u && u->is_special() && u->type != ada::scheme::FILE &&
+                              !strip(std::string(u->get_search()), '?').starts_with("?") &&
+                              !strip(std::string(u->get_hash()), '#').starts_with("#");
+      if (comparable) {
+        Op twin = ops[0];
+        twin.sub = uint8_t((ops[0].sub & 3) | (2 << 2));
+        for (size_t k = 9; k < 18; k++) twin.args[k].reset();
+        std::string proto(u->get_protocol());
+        if (!proto.empty() && proto.back() == ':') proto.pop_back();
+        twin.args[9] = proto;
+        twin.args[10] = std::string(u->get_username());
+        twin.args[11] = std::string(u->get_password());
+        twin.args[12] = std::string(u->get_hostname());
+        twin.args[13] = std::string(u->get_port());
+        twin.args[14] = std::string(u->get_pathname());
+        twin.args[15] = strip(std::string(u->get_search()), '?');
+        twin.args[16] = strip(std::string(u->get_hash()), '#');
+        hs.off();
+        Hist<ada::url_aggregator> h2;
+        std::string b = exec_op(twin, h2).text;
+        std::string a = A[0].substr(0, A[0].find('\x1e'));
+        st.add("dictpair.checked");
+        res.hash = fnv1a(b, res.hash);
+        std::string why;
+        for (const char* f : {"construct", "test", "exec", "match", "protocol.in", "protocol.groups", "username.in", "username.groups", "password.in",
+                              "password.groups", "hostname.in", "hostname.groups", "port.in", "port.groups", "pathname.in", "pathname.groups",
+                              "search.in", "search.groups", "hash.in", "hash.groups"}) {
+          std::string x = snap_field(a.substr(2), f), y = snap_field(b.substr(2), f);
+          if (x != y && why.empty()) why = std::string(f) + "='" + printable(x) + "' for the URL string but '" + printable(y) + "' for the dictionary of its components";
+        }
+        if (!why.empty()) {
+          res.violation = true;
+          res.vclass = "string-vs-dictionary-input";
+          res.sig = why.substr(0, why.find('='));
+          res.detail = ops[0].pretty() + " vs " + twin.pretty() + ": " + why;
+          return res;
         }
       }
     }
